@@ -5,7 +5,7 @@
    every accepted specification, every parameter vector and EVERY data vector (arbitrary auxiliary data). *)
 From Coq Require Import String Permutation Ring QArith Qcanon List.
 Require Import PV.Num PV.Sort PV.Spec PV.Impl PV.Ref PV.Config PV.RefineRates PV.RefineTop
-               PV.RefineTerms PV.RefineTermsBlocks PV.RefineTermsTop PV.RefineTermsFinal PV.RefineTermsExample.
+               PV.RefineTerms PV.RefineTermsBlocks PV.RefineTermsTop PV.RefineTermsFinal PV.RefineTermsFull PV.RefineTermsExample.
 Import ListNotations.
 Local Open Scope nat_scope.
 
@@ -97,7 +97,8 @@ Theorem C02_constraint_terms_refine : forall N,
               (ref_cterms N sp (theta N md par) (aux_by_name N (md_psets N md) auxd)).
 Proof. exact accepted_cterms_perm. Qed.
 
-(* the goal.  _partial: the only premise that is not a schema shape or the documented clip guard is the access-field layout
+(* the same with the layout premise kept in its decidable form (superseded by C02_logpdf_terms_refines below; kept because the
+   checks evaluate layout_okb per generated model as a cross-check).  _partial: the only premise that is not a schema shape or the documented clip guard is the access-field layout
    premise of the C01 refinement (layout_okb, evaluated per generated model by the C01/C02 checks; its derivation from
    build = Ok is RefineLayout.v).  All four constraint families are proved. *)
 Theorem C02_logpdf_terms_refines_partial : forall N,
@@ -134,6 +135,40 @@ Theorem C02_logpdf_terms_refines_R : forall ia im (sp : spec RNum) st md pars da
                            (theta RNum md (parf RNum pars)) (obs_by_name RNum sp data) (aux_of_data RNum sp md data)).
 Proof. exact logpdf_terms_refines_layout_R. Qed.
 
+(* the goal, premise-free: the access-field layout is derived from build = Ok (RefineLayout.accepted_layout); what remains are the
+   JSON-schema shapes of modifier data and the documented guard on the per-sample clip (C01 known finding) *)
+Theorem C02_logpdf_terms_refines : forall N,
+  ring_theory (n0 N) (n1 N) (nadd N) (nmul N) (nsub N) (nopp N) eq ->
+  (forall a b : V N, neqb N a b = true -> a = b) -> (forall a b : V N, ndiv N a b = nmul N a (ninv N b)) ->
+  forall interp_add interp_mul (sp : spec N) st md pars data l,
+  build N sp = Ok md -> list_shape_ok N sp -> shape_ok N sp -> clip_guard N st ->
+  logpdf_terms N interp_add interp_mul sp st md pars data = Ok l ->
+  Permutation l (ref_terms N interp_add interp_mul (normsys_code N st) (histosys_code N st) (clip_sample N st) (clip_bin N st) sp
+                           (theta N md (parf N pars)) (obs_by_name N sp data) (aux_of_data N sp md data)).
+Proof. exact logpdf_terms_refines. Qed.
+Theorem C02_logpdf_refines : forall N,
+  ring_theory (n0 N) (n1 N) (nadd N) (nmul N) (nsub N) (nopp N) eq ->
+  (forall a b : V N, neqb N a b = true -> a = b) -> (forall a b : V N, ndiv N a b = nmul N a (ninv N b)) ->
+  forall interp_add interp_mul (sp : spec N) st md logpois lognorm pars data l,
+  build N sp = Ok md -> list_shape_ok N sp -> shape_ok N sp -> clip_guard N st ->
+  logpdf_terms N interp_add interp_mul sp st md pars data = Ok l ->
+  sumlog N logpois lognorm l =
+  sumlog N logpois lognorm (ref_terms N interp_add interp_mul (normsys_code N st) (histosys_code N st) (clip_sample N st) (clip_bin N st) sp
+                                      (theta N md (parf N pars)) (obs_by_name N sp data) (aux_of_data N sp md data)).
+Proof. exact logpdf_refines. Qed.
+Theorem C02_logpdf_terms_refines_full_Qc : forall ia im (sp : spec QcNum) st md pars data l,
+  build QcNum sp = Ok md -> list_shape_ok QcNum sp -> shape_ok QcNum sp -> clip_guard QcNum st ->
+  logpdf_terms QcNum ia im sp st md pars data = Ok l ->
+  Permutation l (ref_terms QcNum ia im (normsys_code QcNum st) (histosys_code QcNum st) (clip_sample QcNum st) (clip_bin QcNum st) sp
+                           (theta QcNum md (parf QcNum pars)) (obs_by_name QcNum sp data) (aux_of_data QcNum sp md data)).
+Proof. exact logpdf_terms_refines_Qc. Qed.
+Theorem C02_logpdf_terms_refines_full_R : forall ia im (sp : spec RNum) st md pars data l,
+  build RNum sp = Ok md -> list_shape_ok RNum sp -> shape_ok RNum sp -> clip_guard RNum st ->
+  logpdf_terms RNum ia im sp st md pars data = Ok l ->
+  Permutation l (ref_terms RNum ia im (normsys_code RNum st) (histosys_code RNum st) (clip_sample RNum st) (clip_bin RNum st) sp
+                           (theta RNum md (parf RNum pars)) (obs_by_name RNum sp data) (aux_of_data RNum sp md data)).
+Proof. exact logpdf_terms_refines_R. Qed.
+
 (* non-vacuity: a concrete two-channel specification with all four constraint families meets every hypothesis *)
 Theorem C02_refines_nonvacuous :
   exists md l, build QcNum ex_spec = Ok md /\ list_shape_ok QcNum ex_spec /\ shape_ok QcNum ex_spec /\ clip_guard QcNum ex_st /\
@@ -160,4 +195,8 @@ Print Assumptions C02_logpdf_terms_refines_partial.
 Print Assumptions C02_logpdf_refines_partial.
 Print Assumptions C02_logpdf_terms_refines_Qc.
 Print Assumptions C02_logpdf_terms_refines_R.
+Print Assumptions C02_logpdf_terms_refines.
+Print Assumptions C02_logpdf_refines.
+Print Assumptions C02_logpdf_terms_refines_full_Qc.
+Print Assumptions C02_logpdf_terms_refines_full_R.
 Print Assumptions C02_refines_nonvacuous.
